@@ -1139,7 +1139,7 @@ class Forall(BeginStatement):
         return BeginStatement.process_item(self)
 
     def tostr(self):
-        return "FORALL (%s)" % (self.specs)
+        return "FORALL (%s)" % (self.item.apply_map(self.specs))
 
     def get_classes(self):
         return [
